@@ -10,6 +10,7 @@
 -/
 import AbacusVerif.Lemmas.C02
 import AbacusVerif.Lemmas.C02Setup
+import AbacusVerif.Lemmas.C02Pass
 
 namespace AbacusVerif.Fields
 open AbacusVerif AbacusVerif.Units
@@ -139,37 +140,6 @@ theorem generated_wf : groupOK Spec.generated = true ∧ dtypesOK Spec.generated
 
 /-! ### small facts about the tables -/
 
-theorem dtLookup_mem {t : List (String × Dt)} {n : String} {d : Dt} (h : dtLookup t n = some d) :
-    (n, d) ∈ t := by
-  unfold dtLookup at h
-  cases hf : t.find? (fun p => p.1 == n) with
-  | none => simp [hf] at h
-  | some p =>
-    simp only [hf, Option.map_some, Option.some.injEq] at h
-    have h1 := List.mem_of_find?_eq_some hf
-    have h2 := List.find?_some hf
-    have : p.1 = n := by simpa using h2
-    subst h; subst this; exact h1
-
-theorem dtLookup_none {t : List (String × Dt)} {n : String} (h : ¬ n ∈ names t) : dtLookup t n = none := by
-  unfold dtLookup
-  cases hf : t.find? (fun p => p.1 == n) with
-  | none => rfl
-  | some p =>
-    exfalso
-    have h1 := List.mem_of_find?_eq_some hf
-    have h2 : p.1 = n := by simpa using List.find?_some hf
-    exact h (by subst h2; exact List.mem_map_of_mem h1)
-
-theorem dtLookup_names {t : List (String × Dt)} {n : String} {d : Dt} (h : dtLookup t n = some d) : n ∈ names t := by
-  have := dtLookup_mem h
-  exact List.mem_map.mpr ⟨(n, d), this, rfl⟩
-
-theorem findLoader_mem {S : Spec} {n : String} {ld : Loader} (h : findLoader S n = some ld) :
-    ld ∈ S.loaders ∧ ld.name = n := by
-  unfold findLoader at h
-  exact ⟨List.mem_of_find?_eq_some h, by simpa using List.find?_some h⟩
-
 section DeclaredFacts
 set_option linter.unusedSectionVars false
 variable {S : Spec} (hd : dtypesOK S = true)
@@ -210,30 +180,6 @@ end DeclaredFacts
 /-- every column of the table has the base type it is declared with -/
 def ColsOK (S : Spec) (cols : List (String × Dt)) : Prop :=
   ∀ p ∈ cols, declaredBase S p.1 = some (base p.2)
-
-theorem insertCol_mem {cols : List (String × Dt)} {n : String} {d : Dt} {p : String × Dt}
-    (h : p ∈ insertCol cols n d) : p ∈ cols ∨ p = (n, d) := by
-  unfold insertCol at h
-  split at h
-  · obtain ⟨q, hq, hqp⟩ := List.mem_map.mp h
-    split at hqp
-    · exact Or.inr hqp.symm
-    · exact Or.inl (hqp ▸ hq)
-  · rcases List.mem_append.mp h with h | h
-    · exact Or.inl h
-    · exact Or.inr (by simpa using h)
-
-theorem foldlM_inv {α β : Type} (f : β → α → Except Fault β) (P : β → Prop)
-    (hstep : ∀ b a b', P b → f b a = .ok b' → P b') :
-    ∀ (l : List α) (b b' : β), P b → l.foldlM f b = .ok b' → P b'
-  | [], b, b', hb, h => by simp [List.foldlM, pure, Except.pure] at h; exact h ▸ hb
-  | a :: l, b, b', hb, h => by
-    simp only [List.foldlM, bind, Except.bind] at h
-    cases hf : f b a with
-    | error e => simp [hf] at h
-    | ok b1 =>
-      simp only [hf] at h
-      exact foldlM_inv f P hstep l b1 b' (hstep b a b1 hb hf) h
 
 theorem allocate_ok {S : Spec} (hd : dtypesOK S = true) {fields cleanedFields : List String}
     {cols : List (String × Dt)} (h : allocate S fields cleanedFields = .ok cols) : ColsOK S cols := by
@@ -561,19 +507,6 @@ theorem has_iff {h : Halos V} {x : String} : h.has x = true ↔ x ∈ colNames h
   constructor
   · rintro ⟨p, hp, he⟩; exact ⟨p, hp, by simpa using he⟩
   · rintro ⟨p, hp, he⟩; exact ⟨p, hp, by simpa using he⟩
-
-theorem dtLookup_some_of_mem {t : List (String × Dt)} {n : String} (h : n ∈ names t) : ∃ d, dtLookup t n = some d := by
-  cases hd : dtLookup t n with
-  | some d => exact ⟨d, rfl⟩
-  | none =>
-    exfalso
-    unfold dtLookup at hd
-    cases hf : t.find? (fun p => p.1 == n) with
-    | some p => simp [hf] at hd
-    | none =>
-      obtain ⟨p, hp, he⟩ := List.mem_map.mp h
-      have := List.find?_eq_none.mp hf p hp
-      simp [he] at this
 
 /-- everything `_load_halo_field(f)` touches is there: a loader, its raw columns among those read from
 disk, its halo dependencies and `f` itself among the columns of the per-file table -/
@@ -1479,6 +1412,286 @@ example :
       !validRequest Spec.generated t.1 t.2.1 [] t.2.2 &&
       (construct Spec.generated strOps 3 (if t.2.2 then lightconeRawCols else snapshotRawCols)
         (if t.2.1 then cleanedCols else []) t.1 t.2.1 [] t.2.2).toOption.isNone) = true := by
+  decide +kernel
+
+/-! ### passthrough mode (`passthrough=True`) -/
+
+/-- every column of the table `_read_halo_info(passthrough=True)` returns is the raw column in its file dtype -/
+theorem passthrough_table (S : Spec) (O : ValOps V) (rawFile cleanFile : List (String × Dt)) (req : Req)
+    (cleaned : Bool) (loadAB : List String) (r : Loaded V)
+    (h : readHaloInfoPT S O rawFile cleanFile req cleaned loadAB = .ok r) :
+    ∀ p ∈ r.table.cols, some (r.table.val p.1) = ptDenote O rawFile cleanFile cleaned p.1 := by
+  obtain ⟨q, hq, _⟩ := setupFieldsPT_spec rawFile cleanFile req cleaned loadAB
+  obtain ⟨cols, ha, _, hdt⟩ := allocatePT_spec rawFile cleanFile cleaned q
+  unfold readHaloInfoPT at h
+  simp only [hq, ha] at h
+  split at h
+  · cases h
+  · split at h
+    · cases h
+    · cases hl : loadAllPT O (dedup (cols.map (·.1)).reverse) { cols := cols, val := fun _ => O.uninit } with
+      | error e => simp [hl] at h
+      | ok t =>
+        simp only [hl, Except.ok.injEq] at h
+        subst h
+        obtain ⟨hc, hw, _⟩ := loadAllPT_spec O _ _ _ hl
+        intro p hp
+        simp only at hp ⊢
+        rw [hc] at hp
+        have hmem : p.1 ∈ dedup (cols.map (·.1)).reverse := by
+          simp only [mem_dedup, List.mem_reverse]
+          exact List.mem_map_of_mem hp
+        obtain ⟨d, hd, hv⟩ := hw p.1 hmem
+        have := hdt (p.1, d) (dtLookup_mem hd)
+        simp only at this
+        simp [ptDenote, this, hv]
+
+/-- **passthrough_column_independent.**  In passthrough mode, for any request (a list in any order with repeats
+and unknown names, 'all'), cleaned on/off and any subsample selection: if the constructor returns, every column of
+`cat.halos` other than the re-indexed `npstart/npout` of the loaded subsamples holds `ptDenote c` — the raw column
+`c` of the file in the file's dtype — which mentions neither the request nor the subsample selection. -/
+theorem passthrough_column_independent (S : Spec) (O : ValOps V) (rawFile cleanFile : List (String × Dt))
+    (req : Req) (cleaned : Bool) (loadAB : List String) (r : Loaded V)
+    (h : constructPT S O rawFile cleanFile req cleaned loadAB = .ok r) :
+    ∀ p ∈ r.table.cols, (∀ ab ∈ loadAB, p.1 ≠ "npstart" ++ ab ∧ p.1 ≠ "npout" ++ ab) →
+      some (r.table.val p.1) = ptDenote O rawFile cleanFile cleaned p.1 := by
+  unfold constructPT at h
+  cases h0 : readHaloInfoPT S O rawFile cleanFile req cleaned loadAB with
+  | error e => simp [h0] at h
+  | ok r0 =>
+    simp only [h0] at h
+    cases h1 : reindexAll O cleaned loadAB false r0.table with
+    | error e => simp [h1] at h
+    | ok t =>
+      simp only [h1, Except.ok.injEq] at h
+      subst h
+      obtain ⟨hv, hm⟩ := reindexAll_val h1
+      intro p hp hne
+      simp only at hp ⊢
+      rw [hv p.1 hne]
+      have hpn : p.1 ∈ cnames t := List.mem_map_of_mem hp
+      rcases hm p.1 hpn with h2 | ⟨ab, hab, h2⟩
+      · obtain ⟨p0, hp0, he⟩ := List.mem_map.mp h2
+        have := passthrough_table S O rawFile cleanFile req cleaned loadAB r0 h0 p0 hp0
+        rw [he] at this
+        exact this
+      · rcases h2 with h2 | h2
+        · exact absurd h2 (hne ab hab).1
+        · exact absurd h2 (hne ab hab).2
+
+/-- two passthrough loads of the same files — any two requests, orders, subsample selections — agree on every
+column they share that neither of them re-indexed -/
+theorem passthrough_column_independent_pair (S : Spec) (O : ValOps V) (rawFile cleanFile : List (String × Dt))
+    (cleaned : Bool) (req₁ req₂ : Req) (ab₁ ab₂ : List String) (r₁ r₂ : Loaded V)
+    (h₁ : constructPT S O rawFile cleanFile req₁ cleaned ab₁ = .ok r₁)
+    (h₂ : constructPT S O rawFile cleanFile req₂ cleaned ab₂ = .ok r₂)
+    (c : String) (hc₁ : c ∈ cnames r₁.table) (hc₂ : c ∈ cnames r₂.table)
+    (hn : ∀ ab ∈ ab₁ ++ ab₂, c ≠ "npstart" ++ ab ∧ c ≠ "npout" ++ ab) :
+    r₁.table.val c = r₂.table.val c := by
+  obtain ⟨p₁, hp₁, rfl⟩ := List.mem_map.mp hc₁
+  obtain ⟨p₂, hp₂, he⟩ := List.mem_map.mp hc₂
+  have d₁ := passthrough_column_independent S O rawFile cleanFile req₁ cleaned ab₁ r₁ h₁ p₁ hp₁
+    (fun ab hab => hn ab (List.mem_append_left _ hab))
+  have d₂ := passthrough_column_independent S O rawFile cleanFile req₂ cleaned ab₂ r₂ h₂ p₂ hp₂
+    (fun ab hab => by rw [he]; exact hn ab (List.mem_append_right _ hab))
+  rw [he] at d₂
+  exact Option.some.inj (d₁.trans d₂.symm)
+
+/-- the files are what the data model says: the halo_info file holds the subsample index columns and none of its
+columns is named like a cleaning column; the cleaned file (if opened) holds `N_total` and the merge index columns
+and only columns named in `clean_dt_progen` (the reader picks the file of a raw column by that name test) -/
+def ptFilesOK (S : Spec) (rawFile cleanFile : List (String × Dt)) (cleaned : Bool) : Bool :=
+  ["npstartA", "npoutA", "npstartB", "npoutB"].all (fun n => decide (n ∈ names rawFile)) &&
+  (names rawFile).all (fun n => !decide (n ∈ names S.clean_dt_progen)) &&
+  (!cleaned ||
+    (["N_total", "npstartA_merge", "npoutA_merge", "npstartB_merge", "npoutB_merge"].all (fun n => decide (n ∈ names cleanFile)) &&
+     (names cleanFile).all (fun n => decide (n ∈ names S.clean_dt_progen))))
+
+/-- **passthrough_no_request_dependent_failure.**  In passthrough mode, for data-model files, every request whose
+resolved field list is not empty — any list of names in any order, repeats and unknown names included, or 'all' —,
+cleaned on/off, every subsample selection: the constructor returns a table.  (An empty resolved list raises
+`UnboundLocalError` in the real reader, e.g. `fields=['haloindex']` with `cleaned=False`.) -/
+theorem passthrough_no_request_dependent_failure (S : Spec) (O : ValOps V) (rawFile cleanFile : List (String × Dt))
+    (req : Req) (cleaned : Bool) (loadAB : List String)
+    (hAB : loadAB ∈ loadABs) (hfiles : ptFilesOK S rawFile cleanFile cleaned = true)
+    (hne : (setupFieldsPT rawFile cleanFile req cleaned loadAB).1 ≠ [] ∨
+           (setupFieldsPT rawFile cleanFile req cleaned loadAB).2 ≠ []) :
+    ∃ r, constructPT S O rawFile cleanFile req cleaned loadAB = .ok r := by
+  obtain ⟨q, hq, hqi⟩ := setupFieldsPT_spec rawFile cleanFile req cleaned loadAB
+  obtain ⟨cols, ha, hn, _⟩ := allocatePT_spec rawFile cleanFile cleaned q
+  rw [hq] at hne
+  simp only at hne
+  -- unpack the file facts
+  unfold ptFilesOK at hfiles
+  simp only [Bool.and_eq_true, List.all_eq_true, decide_eq_true_eq, Bool.not_eq_eq_eq_not, Bool.not_true,
+    decide_eq_false_iff_not, Bool.or_eq_true] at hfiles
+  obtain ⟨⟨fidx, fsrc⟩, fclean⟩ := hfiles
+  have fclean' : cleaned = true →
+      (∀ n ∈ ["N_total", "npstartA_merge", "npoutA_merge", "npstartB_merge", "npoutB_merge"], n ∈ names cleanFile) ∧
+      (∀ n ∈ names cleanFile, n ∈ names S.clean_dt_progen) := by
+    intro hc
+    rcases fclean with h | h
+    · rw [hc] at h; cases h
+    · exact h
+  -- the raw IO finds every column in the right file
+  have hcheck : ((dedup (cols.map (·.1))).all fun r =>
+      if r ∈ names S.clean_dt_progen then cleaned && decide (r ∈ names cleanFile) else decide (r ∈ names rawFile)) = true := by
+    rw [List.all_eq_true]
+    intro x hx
+    have hx' : x ∈ names cols := by simpa [mem_dedup, names] using hx
+    rcases (hn x).mp hx' with h | h
+    · have hr := (List.mem_filter.mp h).1
+      simp [fsrc x hr, hr]
+    · have hm := (List.mem_filter.mp h).1
+      cases hc : cleaned with
+      | false => rw [hc] at hm; simp at hm
+      | true =>
+        rw [hc] at hm
+        have hm' : x ∈ names cleanFile := by simpa using hm
+        simp [(fclean' hc).2 x hm', hm']
+  have hnonempty : (dedup (cols.map (·.1))).isEmpty = false := by
+    have : ∃ x, x ∈ names cols := by
+      rcases hne with h | h
+      · cases hf : (names rawFile).filter q with
+        | nil => exact absurd hf h
+        | cons a _ => exact ⟨a, (hn a).mpr (Or.inl (by simp [hf]))⟩
+      · cases hf : (if cleaned then names cleanFile else []).filter q with
+        | nil => exact absurd hf h
+        | cons a _ => exact ⟨a, (hn a).mpr (Or.inr (by simp [hf]))⟩
+    obtain ⟨x, hx⟩ := this
+    cases hE : dedup (cols.map (·.1)) with
+    | nil =>
+      have : x ∈ dedup (cols.map (·.1)) := by simpa [mem_dedup, names] using hx
+      rw [hE] at this; simp at this
+    | cons _ _ => rfl
+  obtain ⟨t, ht⟩ := loadAllPT_some O (dedup (cols.map (·.1)).reverse) { cols := cols, val := fun _ => O.uninit }
+    (by intro x hx; simpa [mem_dedup, cnames] using hx)
+  obtain ⟨tc, _, _⟩ := loadAllPT_spec O _ _ _ ht
+  have hr0 : readHaloInfoPT S O rawFile cleanFile req cleaned loadAB = .ok
+      { fields := (names rawFile).filter q, cleanedFields := (if cleaned then names cleanFile else []).filter q,
+        deps := { raw := dedup (cols.map (·.1)), fieldsWithDeps := dedup (cols.map (·.1)).reverse, extra := [] },
+        table := t } := by
+    unfold readHaloInfoPT
+    simp only [hq, ha, hcheck, hnonempty, ht, Bool.not_true, Bool.false_eq_true, if_false]
+  -- the index columns are in the table
+  have hcn : ∀ x, x ∈ cnames t ↔ x ∈ (names rawFile).filter q ∨ x ∈ (if cleaned then names cleanFile else []).filter q := by
+    intro x
+    have : cnames t = names cols := by simp [cnames, names, tc]
+    rw [this]; exact hn x
+  have habAB : ∀ ab ∈ loadAB, ab = "A" ∨ ab = "B" := by
+    intro ab hab
+    simp only [loadABs, List.mem_cons, List.not_mem_nil, or_false] at hAB
+    rcases hAB with rfl | rfl | rfl | rfl <;> simp at hab
+    · exact Or.inl hab
+    · exact Or.inr hab
+    · exact hab
+  have hidx : ∀ ab ∈ loadAB, ("npstart" ++ ab) ∈ cnames t ∧ ("npout" ++ ab) ∈ cnames t ∧
+      (cleaned = true → ("npstart" ++ ab ++ "_merge") ∈ cnames t ∧ ("npout" ++ ab ++ "_merge") ∈ cnames t) := by
+    intro ab hab
+    have hin : ∀ y ∈ ["npstart" ++ ab, "npout" ++ ab, "npstart" ++ ab ++ "_merge", "npout" ++ ab ++ "_merge"],
+        q y = true := by
+      intro y hy
+      apply hqi
+      unfold ptIndexNames
+      exact List.mem_append_left _ (List.mem_flatMap.mpr ⟨ab, hab, hy⟩)
+    refine ⟨?_, ?_, ?_⟩
+    · refine (hcn _).mpr (Or.inl (List.mem_filter.mpr ⟨fidx _ ?_, hin _ (by simp)⟩))
+      rcases habAB ab hab with rfl | rfl <;> decide
+    · refine (hcn _).mpr (Or.inl (List.mem_filter.mpr ⟨fidx _ ?_, hin _ (by simp)⟩))
+      rcases habAB ab hab with rfl | rfl <;> decide
+    · intro hc
+      obtain ⟨fc1, _⟩ := fclean' hc
+      constructor
+      · refine (hcn _).mpr (Or.inr (List.mem_filter.mpr ⟨?_, hin _ (by simp)⟩))
+        rw [hc]; simp only [if_true]
+        apply fc1
+        rcases habAB ab hab with rfl | rfl <;> decide
+      · refine (hcn _).mpr (Or.inr (List.mem_filter.mpr ⟨?_, hin _ (by simp)⟩))
+        rw [hc]; simp only [if_true]
+        apply fc1
+        rcases habAB ab hab with rfl | rfl <;> decide
+  have hNt : cleaned = true → loadAB ≠ [] → "N_total" ∈ cnames t := by
+    intro hc hl
+    obtain ⟨fc1, _⟩ := fclean' hc
+    refine (hcn _).mpr (Or.inr (List.mem_filter.mpr ⟨?_, ?_⟩))
+    · rw [hc]; simp only [if_true]; exact fc1 _ (by simp)
+    · apply hqi
+      unfold ptIndexNames
+      apply List.mem_append_right
+      cases loadAB with
+      | nil => exact absurd rfl hl
+      | cons a as => simp
+  have hre : ∃ t', reindexAll O cleaned loadAB false t = .ok t' := by
+    by_cases hl : loadAB = []
+    · subst hl; exact ⟨t, by simp [reindexAll]⟩
+    · exact reindexAll_some O cleaned loadAB t hAB hidx (fun hc => hNt hc hl)
+  obtain ⟨t', ht'⟩ := hre
+  obtain ⟨r0, hr0', hr0t⟩ : ∃ r0 : Loaded V, readHaloInfoPT S O rawFile cleanFile req cleaned loadAB = .ok r0 ∧
+      r0.table = t := ⟨_, hr0, rfl⟩
+  refine ⟨{ r0 with table := t' }, ?_⟩
+  unfold constructPT
+  simp only [hr0', hr0t, ht']
+
+/-- a snapshot `halo_info` file as asdf stores it (columns in file order, with dtypes; harness/catgen.py) -/
+def ptRawFile : List (String × Dt) :=
+  [("L0_N", ⟨.u, 32, []⟩), ("L2_N", ⟨.u, 32, [5]⟩), ("N", ⟨.u, 32, []⟩),
+   ("SO_L2max_central_density", ⟨.f, 32, []⟩), ("SO_L2max_central_particle", ⟨.f, 32, [3]⟩),
+   ("SO_L2max_radius", ⟨.f, 32, []⟩), ("SO_central_density", ⟨.f, 32, []⟩),
+   ("SO_central_particle", ⟨.f, 32, [3]⟩), ("SO_radius", ⟨.f, 32, []⟩), ("id", ⟨.u, 64, []⟩),
+   ("meanSpeed_L2com", ⟨.f, 32, []⟩), ("meanSpeed_com", ⟨.f, 32, []⟩), ("meanSpeed_r50_L2com", ⟨.f, 32, []⟩),
+   ("meanSpeed_r50_com", ⟨.f, 32, []⟩), ("npoutA", ⟨.u, 32, []⟩), ("npoutB", ⟨.u, 32, []⟩),
+   ("npstartA", ⟨.u, 64, []⟩), ("npstartB", ⟨.u, 64, []⟩), ("ntaggedA", ⟨.u, 32, []⟩),
+   ("ntaggedB", ⟨.u, 32, []⟩), ("r100_L2com", ⟨.f, 32, []⟩), ("r100_com", ⟨.f, 32, []⟩),
+   ("r10_L2com_i16", ⟨.i, 16, []⟩), ("r10_com_i16", ⟨.i, 16, []⟩), ("r25_L2com_i16", ⟨.i, 16, []⟩),
+   ("r25_com_i16", ⟨.i, 16, []⟩), ("r33_L2com_i16", ⟨.i, 16, []⟩), ("r33_com_i16", ⟨.i, 16, []⟩),
+   ("r50_L2com_i16", ⟨.i, 16, []⟩), ("r50_com_i16", ⟨.i, 16, []⟩), ("r67_L2com_i16", ⟨.i, 16, []⟩),
+   ("r67_com_i16", ⟨.i, 16, []⟩), ("r75_L2com_i16", ⟨.i, 16, []⟩), ("r75_com_i16", ⟨.i, 16, []⟩),
+   ("r90_L2com_i16", ⟨.i, 16, []⟩), ("r90_com_i16", ⟨.i, 16, []⟩), ("r95_L2com_i16", ⟨.i, 16, []⟩),
+   ("r95_com_i16", ⟨.i, 16, []⟩), ("r98_L2com_i16", ⟨.i, 16, []⟩), ("r98_com_i16", ⟨.i, 16, []⟩),
+   ("rvcirc_max_L2com_i16", ⟨.i, 16, []⟩), ("rvcirc_max_com_i16", ⟨.i, 16, []⟩),
+   ("sigman_L2com_i16", ⟨.i, 16, [3]⟩), ("sigman_com_i16", ⟨.i, 16, [3]⟩),
+   ("sigman_eigenvecs_L2com_u16", ⟨.u, 16, []⟩), ("sigman_eigenvecs_com_u16", ⟨.u, 16, []⟩),
+   ("sigmar_L2com_i16", ⟨.i, 16, [3]⟩), ("sigmar_com_i16", ⟨.i, 16, [3]⟩),
+   ("sigmar_eigenvecs_L2com_u16", ⟨.u, 16, []⟩), ("sigmar_eigenvecs_com_u16", ⟨.u, 16, []⟩),
+   ("sigmav3d_L2com", ⟨.f, 32, []⟩), ("sigmav3d_com", ⟨.f, 32, []⟩), ("sigmav3d_r50_L2com", ⟨.f, 32, []⟩),
+   ("sigmav3d_r50_com", ⟨.f, 32, []⟩), ("sigmavMax_to_sigmav3d_L2com_i16", ⟨.i, 16, []⟩),
+   ("sigmavMax_to_sigmav3d_com_i16", ⟨.i, 16, []⟩), ("sigmavMin_to_sigmav3d_L2com_i16", ⟨.i, 16, []⟩),
+   ("sigmavMin_to_sigmav3d_com_i16", ⟨.i, 16, []⟩), ("sigmav_eigenvecs_L2com_u16", ⟨.u, 16, []⟩),
+   ("sigmav_eigenvecs_com_u16", ⟨.u, 16, []⟩), ("sigmavrad_to_sigmav3d_L2com_i16", ⟨.i, 16, []⟩),
+   ("sigmavrad_to_sigmav3d_com_i16", ⟨.i, 16, []⟩), ("sigmavtan_to_sigmav3d_L2com_i16", ⟨.i, 16, []⟩),
+   ("sigmavtan_to_sigmav3d_com_i16", ⟨.i, 16, []⟩), ("v_L2com", ⟨.f, 32, [3]⟩), ("v_com", ⟨.f, 32, [3]⟩),
+   ("vcirc_max_L2com", ⟨.f, 32, []⟩), ("vcirc_max_com", ⟨.f, 32, []⟩), ("x_L2com", ⟨.f, 32, [3]⟩),
+   ("x_com", ⟨.f, 32, [3]⟩)]
+
+/-- the matching `cleaned_halo_info` file -/
+def ptCleanFile : List (String × Dt) :=
+  [("N_mainprog", ⟨.u, 32, [3]⟩), ("N_merge", ⟨.u, 32, []⟩), ("N_total", ⟨.u, 32, []⟩),
+   ("haloindex", ⟨.u, 64, []⟩), ("haloindex_mainprog", ⟨.i, 64, []⟩), ("is_merged_to", ⟨.i, 64, []⟩),
+   ("npoutA_merge", ⟨.u, 32, []⟩), ("npoutB_merge", ⟨.u, 32, []⟩), ("npstartA_merge", ⟨.i, 64, []⟩),
+   ("npstartB_merge", ⟨.i, 64, []⟩), ("sigmav3d_L2com_mainprog", ⟨.f, 32, [3]⟩),
+   ("v_L2com_mainprog", ⟨.f, 32, [3]⟩), ("vcirc_max_L2com_mainprog", ⟨.f, 32, [3]⟩)]
+
+/-- the data-model files satisfy the file hypotheses of the passthrough theorems -/
+theorem pt_datamodel_files : ptFilesOK Spec.generated ptRawFile ptCleanFile false = true ∧
+    ptFilesOK Spec.generated ptRawFile ptCleanFile true = true := by
+  refine ⟨by decide +kernel, by decide +kernel⟩
+
+/-- non-vacuity: the request repaired in 7d0940d — `fields=['N']`, `passthrough=True`, subsample A (and A+B on
+the cleaned catalog) — satisfies the hypotheses, so it constructs; the model's table has the index columns
+re-inserted at the end and keeps `N_total` (no rename in this mode). -/
+example (O : ValOps V) :
+    (∃ r, constructPT Spec.generated O ptRawFile ptCleanFile (.list ["N"]) false ["A"] = .ok r) ∧
+    (∃ r, constructPT Spec.generated O ptRawFile ptCleanFile (.list ["x_com", "foo", "haloindex", "x_com"]) true ["A", "B"] = .ok r) :=
+  ⟨passthrough_no_request_dependent_failure _ O _ _ _ _ _ (by decide) pt_datamodel_files.1 (by decide +kernel),
+   passthrough_no_request_dependent_failure _ O _ _ _ _ _ (by decide) pt_datamodel_files.2 (by decide +kernel)⟩
+
+example :
+    (constructPT Spec.generated strOps ptRawFile ptCleanFile (.list ["N"]) true ["A"]).toOption.map
+        (fun r => r.table.cols.map (fun p => (p.1, r.table.val p.1))) =
+      some [("N", "<u32>raw:N()"), ("N_total", "<u32>raw:N_total()"),
+            ("npstartA", "new:npstartA()"), ("npoutA", "new:npoutA()")] ∧
+    -- an empty resolved field list is rejected (the real reader raises UnboundLocalError)
+    (constructPT Spec.generated strOps ptRawFile ptCleanFile (.list ["haloindex"]) false []).toOption.isNone = true := by
   decide +kernel
 
 /-! ### non-vacuity on the generated tables -/
